@@ -464,11 +464,16 @@ class Prop:
         """a result that needs attention: disagreement, or spec failure outside a known class"""
         return (not r["agree"]) or (not r["spec"] and r["known"] is None)
 
+    shrink_budget_s = 120      # wall-clock budget for shrinking one failing case
+
     def shrink_result(self, binpath, r, tier, rounds=60):
         def cls(x):
             return (x["agree"], x["spec"])
         best = r
+        t_end = time.time() + self.shrink_budget_s
         for _ in range(rounds):
+            if time.time() > t_end:
+                break
             cands = self.shrink(best["case"])[:400]
             if not cands:
                 break
